@@ -121,8 +121,11 @@ CHECKS = [
         "call discipline only.", "DESIGN.md section 4 C10"),
     chk("C13", "Contract on the real Transformer._create_const: typing clauses and the unsigned-wrap range clause are "
         "integer/string VCs discharged for all symbols; counter-models are replayed natively.",
-        "Trusted: givc, schema, assumed contracts for _strip_symbol/_create_type_from_base/_resolve_type_from_ctype/"
-        "lookup_giname/resolve_aliases, str(int) as injective UF. Enum member creation and emission not yet under contract. "
+        "Trusted: givc, schema, assumed contracts for _create_type_from_base/_resolve_type_from_ctype/lookup_giname/"
+        "resolve_aliases, str(int) as injective UF. Also under contract: Transformer._create_enum (one member per public "
+        "enumerator in declaration order, name = identifier without the common prefix - else without the namespace prefix - "
+        "lower-cased, value and C identifier kept, bitfield for flags) with _enum_common_prefix, strip_identifier and the "
+        "enumerator list (child_list) by assumed contract, and the emission of members / constants. "
         "One known finding (platform-width unsigned types are not wrapped).", "DESIGN.md section 4 C13"),
     chk("C04", "Contracts on the real prefix matcher Transformer._split_c_string_for_namespace_matches (three loops, inner break, "
         "sort with key, map) and on _sort_matches, _strip_symbol, _create_function, Namespace.append/remove and "
@@ -133,9 +136,12 @@ CHECKS = [
         "parameter of a type of this namespace and carries its prefix unless annotated.",
         "Trusted: givc, schema, _iter_namespaces (generator: current namespace first), list.sort / list(map()) as "
         "permutation / element-wise image instantiated at witness indices, valid string lemma instances, split_csymbol and "
-        "Namespace.track by assumed contract, filter commands excluded by precondition. Not under contract: tag-namespace "
-        "typedef/struct handling, _pair_function/_is_constructor/_pair_static_method, to_underscores, the exactly-once "
-        "statement over a whole scan (a whole-history property), get-type folding.", "DESIGN.md section 4 C04"),
+        "Namespace.track by assumed contract, filter commands excluded by precondition. _split_uscored_by_type (the longest "
+        "registered type prefix of a symbol, candidates = prefixes ending in front of an underscore) is under contract with "
+        "seven assumed lemmas about str.rsplit / count / join that are validated natively (bounded: all strings over {a,b,_} "
+        "up to length 6). Not under contract: tag-namespace typedef/struct handling, _pair_function/_is_constructor/"
+        "_pair_static_method/_setup_method (callers of the split), to_underscores, the exactly-once statement over a whole "
+        "scan (a whole-history property), get-type folding.", "DESIGN.md section 4 C04"),
     chk("C02", "Function contracts on the real transfer-default functions of maintransformer.py (documented defaults for all type / "
         "direction combinations), on _pass3_callable_throws (a trailing GError** is removed and the callable marked as throwing, "
         "nothing else changes) and on _pass3_callable_callbacks: destroy name, scope, transfer and closure name of every "
